@@ -136,7 +136,9 @@ def run(ctx):
 
     # ---------------- zero_filter ----------------------------------------------------
     zcfgs = ([((3, 3), "{0, 1}", None), ((3, 3), "{0, 1, 2}", 1200)] if quick
-             else [((3, 3), "{0, 1, 2, 3}", None), ((3, 4), "{0, 1, 2}", None)])
+             # thorough: TLC enumerates all 262 144 + 531 441 images; a seeded 60 000 of each are replayed
+             # (all of them took well over an hour)
+             else [((3, 3), "{0, 1, 2, 3}", 60000), ((3, 4), "{0, 1, 2}", 60000)])
     for zshape, vals, nsample in zcfgs:
         g = load_states(ctx, "zero", {"NX": zshape[0], "NY": zshape[1], "Vals": vals})
         zstates = list(g.states.values())
@@ -407,7 +409,7 @@ def run(ctx):
             ctx.violation("trace/%s/%s" % (ev["event"], ",".join(bad)), {"event": ev, "line": line,
                                                                        "clauses": clauses})
     ctx.sample({"trace": traces[-1]})
-    ctx.exhaustive = not quick
+    ctx.exhaustive = False   # zero_filter images are sampled in both tiers (see zcfgs)
 
 
 if __name__ == "__main__":
